@@ -548,6 +548,19 @@ theorem parseQuery_rendered_split (text : Str) (params : List (Str × BoundValue
   parseQueryText_rendered text params tbl items gs g hfold hL hsep hgs hg
 
 open Render RenderQuery in
+/-- The same with a decidable legality condition: when inside every statement the pieces are
+separated by non-empty gaps (`SpacedStmt`), nothing has to be said about how a statement meets what
+follows it — a gap, a `;` or the end of the input end every token. -/
+theorem parseQuery_rendered_split_spaced (text : Str) (params : List (Str × BoundValue)) (tbl : List (Char × Char))
+    (items : List Item) (gs : List Render.Gap) (g : Render.Gap)
+    (hfold : foldCR text = queryText items (semisText gs ++ gapText g)) (hok : ∀ z ∈ items, z.2.OK)
+    (hsp : ∀ z ∈ items, (∀ h ∈ z.1, gapOK h = true) ∧ SpacedStmt z.2.pieces = true) (hsep : SepOK true items)
+    (hgs : ∀ h ∈ gs, gapOK h = true) (hg : gapOK g = true) :
+    parseQueryText text params tbl = .ok (items.map (·.2.stmt)) :=
+  parseQueryText_rendered text params tbl items gs g hfold
+    (queryLegal_of_spaced gs g hgs hg items true hok hsp hsep) hsep hgs hg
+
+open Render RenderQuery in
 /-- **Each statement alone.** The text of one rendered statement (followed by any gap) parses as a
 query to the one-element list with that statement, and `ParseStatement` on it gives that statement:
 the result for a whole query (`parseQuery_rendered_split`) is the concatenation of the results of
